@@ -22,27 +22,43 @@ class DRR(MultiQueueScheduler):
         super().__init__(env, rate, flow2class, debug)
         self.deficit: Dict[FlowId, float] = dict()
         self.quantum: Dict[FlowId, float] = dict()
+        self.class_count: Dict[FlowId, int] = dict()
+        """Packets of each class waiting or in transmission.  The round loop
+        works per class; `queue_count`/`queue_byte_size` stay per flow.
+        """
         min_weight = min(weights.values())
         for class_id, weight in weights.items():
             self.deficit[class_id] = 0.0
             self.queue_count[class_id] = 0
+            self.class_count[class_id] = 0
             self.quantum[class_id] = self.MIN_QUANTUM * weight / min_weight
         self.head_of_line = dict()
         self.active_set = set()
         self.flow2class = flow2class
         self.proc = env.process(self.run(env))
 
+    def put(self, packet: Packet):
+        """File the packet in the subqueue of its class (several flows may
+        share one class); the per-flow counters are kept by flow id.
+        """
+        class_id = self.flow2class(packet.flow_id)
+        self.class_count[class_id] += 1
+        if self.total_packets == 0:
+            self.packets_available.put(True)
+        self.add_packet_to_queue(packet)
+        self.dprint(f"received packet {packet.packet_id} from flow {packet.flow_id}")
+        self.stores[class_id].put(packet)
+
     def run(self, env: Environment) -> ProcessGenerator:
         while True:
             while self.total_packets > 0:
-                counts = self.queue_count.items()
-                for class_id, count in counts:
-                    if count > 0:
+                for class_id in self.quantum:
+                    if self.class_count[class_id] > 0:
                         self.deficit[class_id] += self.quantum[class_id]
                         self.dprint(
-                            f"Flow queue length: {self.queue_count[class_id]}, "
+                            f"Class queue length: {self.class_count[class_id]}, "
                             f"deficit counters: {self.deficit}")
-                    while self.deficit[class_id] > 0 and self.queue_count[class_id] > 0:
+                    while self.deficit[class_id] > 0 and self.class_count[class_id] > 0:
                         if class_id in self.head_of_line:
                             packet = self.head_of_line[class_id]
                             del self.head_of_line[class_id]
@@ -57,8 +73,9 @@ class DRR(MultiQueueScheduler):
 
                         if packet.size <= self.deficit[class_id]:
                             yield env.process(self.send_packet(packet))
+                            self.class_count[class_id] -= 1
                             self.deficit[class_id] -= packet.size
-                            if self.queue_count[class_id] == 0:
+                            if self.class_count[class_id] == 0:
                                 self.deficit[class_id] = 0.0
                             self.dprint(f"Deficit reduced to {self.deficit[class_id]} for {class_id}")
                         else:
